@@ -155,7 +155,7 @@ pub fn run(ctx: &Ctx) -> (Acc, String, bool) {
     if !cfg!(debug_assertions) {
         return (acc, rule, ex);
     }
-    let depths: Vec<usize> = if ctx.quick() { vec![64, 999, 1001, 2500] } else { vec![64, 999, 1001, 2500, 4000, 20_000, 100_000] };
+    let depths: Vec<usize> = if ctx.quick() { vec![1001, 2500] } else { vec![64, 999, 1001, 2500, 4000, 20_000, 100_000] };
     let child_limit = std::time::Duration::from_secs(ctx.pick(8, 120));
     let exe = std::env::current_exe().expect("current_exe");
     let mut cases: Vec<(String, String, usize, String)> = vec![];
